@@ -13,12 +13,36 @@ NA_PURE = {
 }
 
 # id -> (built, level category, level text, level note, technique, design ref)
+SIM = "deterministic simulation with fault injection: "
 CHECKS = {
+    "C01": (True, "exploration",
+            "Seeded search over writer programs (prototypes over all record types and widths 0..64 bits, blobs/images/other clouds placing the section at every 4-byte residue modulo 1020, packet capacity capped by a knob or left at ~64 KiB) executed on E57Writer over a simulated device with seeded short writes, reopened through E57Reader on a device with seeded short reads; raw iteration compared bit-exactly with a scene model. Sampling, not proof.",
+            "Trusts the scene model and SimDisk; device fault-free apart from short transfers; prototypes follow the documented rules with at least one sized record.",
+            SIM + "seeded API-call programs x section placement x device chunk schedules x packet-capacity knob vs. scene model", "DESIGN.md §5 C01"),
+    "C02": (True, "exploration",
+            "Every image finalized in the C01/C06 program space (metadata strings from the full XML token pool) is judged by an independent codec (refcodec) written from the format description and calibrated at start-up on 19 foreign files: fsck rules, then decode == points, blobs and metadata handed to the writer.",
+            "Trusts refcodec (own page layer, bitwise CRC-32C, own XML parser; roxmltree as second opinion) and its calibration on E57RefImpl/libE57Format/las2e57 files.",
+            SIM + "seeded writer programs on a simulated device, judged by an independent fsck/decoder", "DESIGN.md §5 C02"),
+    "C06": (True, "exploration",
+            "Seeded writer programs with blob / image / mask lengths swept over every residue modulo 1020 and 4, fed through source pipes with seeded short reads, read back through E57Reader::blob into sinks with seeded short writes; count, length and bytes compared with the scene model, per image descriptor.",
+            "Trusts the scene model, SimDisk and SimPipe; fault-free apart from short transfers.",
+            SIM + "seeded writer programs x blob length/placement residues x source/sink pipe chunk schedules vs. scene model", "DESIGN.md §5 C06"),
     "C11": (True, "exploration",
             "Seeded search over page-layer histories: all PagedWriter histories of length <= 3 over a 20-op boundary alphabet plus random histories up to length 40, each under a seeded short-transfer schedule of the simulated device, checked operation by operation against a byte-vector model; then PagedReader histories over the result. Sampling, not proof.",
             "Trusts the byte-vector model, the bitwise CRC-32C in refcodec and SimDisk's File semantics; device fault-free apart from short transfers.",
-            "deterministic simulation: seeded operation histories over a simulated device with short-transfer schedules vs. reference model",
-            "DESIGN.md §5 C11"),
+            SIM + "seeded operation histories over a simulated device with short-transfer schedules vs. reference model", "DESIGN.md §5 C11"),
+    "C15": (True, "fault_enumeration",
+            "Per sampled writer program the crash space is enumerated completely: every prefix of the recorded device write log x 19+ torn-write cut positions, drop-without-finalize after every call prefix (incl. abandoned sub-writers), failing XML transformer, hard device error at every operation inside finalize; each resulting image must be rejected by the reader or behave exactly like the completed file. Programs are sampled by seed.",
+            "Assumes writes reach the device in issue order and a torn write leaves a byte prefix. Known finding K1 (Drop after a failed finalize) is listed in known_findings.json.",
+            SIM + "crash-point enumeration over the device write log (prefixes x torn cuts) plus drop/transformer/device-error points, reader as judge", "DESIGN.md §5 C15"),
+    "C16": (True, "fault_enumeration",
+            "Per sampled program the single-fault space is enumerated completely: for every operation of the fault-free device/pipe operation sequence of the writer program or of the read-everything reader session, and every flavour applicable to its kind (hard error, short-then-error, EINTR, write returning 0, disk full), the session is re-run with exactly that fault; the API call in progress must return Err (EINTR may be absorbed with identical result, Drop swallows), finalize Ok implies the fault-free image, flushed. Plus chunking mode: K transfer schedules must give byte-identical images and identical read results.",
+            "Programs stop at the first failed call; EINTR only on transfers; errors in Drop are swallowed by design.",
+            SIM + "exhaustive single-fault injection over the recorded device-operation sequence, plus schedule-independence under seeded short transfers", "DESIGN.md §5 C16"),
+    "C17": (True, "exploration",
+            "Seeded histories of 2-12 read operations (early-terminated iterators, blobs into chunked sinks) on one open reader over writer-made files, optionally with static damage (unsealed pages / resealed section headers) and up to three transient device faults placed inside operations; every operation is compared with the same operation on a freshly opened reader over the same bytes.",
+            "Fresh-reader oracle; errors compared as is-Err; iterators driven to first Err/None.",
+            SIM + "seeded reader histories with transient device faults and static damage vs. fresh-reader oracle", "DESIGN.md §5 C17"),
 }
 
 PENDING = {}
